@@ -22,6 +22,8 @@ CONFIGS = {
     "default": [],
     "noatomics": ["-D__STDC_NO_ATOMICS__"],
     "nofibre": ["-DCONFIG_NO_FIBRE"],
+    "uchar": ["-funsigned-char"],          # plain char is unsigned on the ARM targets the library is written for
+    "nofibre-uchar": ["-DCONFIG_NO_FIBRE", "-funsigned-char"],
 }
 
 BASE_FLAGS = ["-std=gnu11", "-UNDEBUG", "-O0", "-Xclang", "-disable-O0-optnone", "-g",
